@@ -149,6 +149,24 @@ type logEvent struct {
 	Kind    string `json:"kind"` // "fail" | "connected"
 	Process bool   `json:"process"`
 	Apply   bool   `json:"apply_config,omitempty"` // logged from inside ApplyConfig
+	// Host: the server the client says it dialled (first argument of its log call); Err: what the dial
+	// reported (clipped)
+	Host string `json:"host,omitempty"`
+	Err  string `json:"err,omitempty"`
+}
+
+// logArgs: the host and the error text of the client's "connecting to %q failed: %v" / "Connected %s"
+func logArgs(args []interface{}) (host, errText string) {
+	if len(args) > 0 {
+		host = fmt.Sprint(args[0])
+	}
+	if len(args) > 1 {
+		errText = fmt.Sprint(args[1])
+		if len(errText) > 160 {
+			errText = errText[:160]
+		}
+	}
+	return
 }
 
 func inProcessGoroutine() bool {
@@ -169,8 +187,9 @@ func (l *hookLogger) Errorf(format string, args ...interface{}) {
 		return
 	}
 	fp, fa := whoLogs()
+	host, errText := logArgs(args)
 	l.mu.Lock()
-	l.events = append(l.events, logEvent{l.clk.tick(), "fail", fp, fa})
+	l.events = append(l.events, logEvent{l.clk.tick(), "fail", fp, fa, host, errText})
 	l.mu.Unlock()
 	atomic.AddInt64(&l.fails, 1)
 	if l.onFail != nil {
@@ -183,8 +202,9 @@ func (l *hookLogger) Infof(format string, args ...interface{}) {
 		return
 	}
 	fp, fa := whoLogs()
+	host, _ := logArgs(args)
 	l.mu.Lock()
-	l.events = append(l.events, logEvent{l.clk.tick(), "connected", fp, fa})
+	l.events = append(l.events, logEvent{l.clk.tick(), "connected", fp, fa, host, ""})
 	l.mu.Unlock()
 	atomic.AddInt64(&l.connected, 1)
 	if l.onConn != nil {
